@@ -223,12 +223,19 @@ func runFanoutHistory(cfgTok, evTok string) string {
 	var pushSegments [][]base.RtmpMsg // one per input epoch
 
 	waitUntil := func(cond func() bool) bool {
-		deadline := time.Now().Add(3 * time.Second)
+		start := time.Now()
+		deadline := start.Add(30 * time.Second)
+		next := start.Add(2 * time.Second)
 		for time.Now().Before(deadline) {
 			if cond() {
 				return true
 			}
 			time.Sleep(200 * time.Microsecond)
+			if time.Now().After(next) {
+				// a failed connection attempt is retried by the group on its next tick
+				group.Tick(1)
+				next = time.Now().Add(2 * time.Second)
+			}
 		}
 		return false
 	}
@@ -258,7 +265,7 @@ func runFanoutHistory(cfgTok, evTok string) string {
 		if target != nil && pushAttached {
 			select {
 			case <-target.doneCh:
-			case <-time.After(3 * time.Second):
+			case <-time.After(30 * time.Second):
 			}
 			target.mu.Lock()
 			pushSegments = append(pushSegments, target.msgs)
